@@ -426,7 +426,9 @@ func TimeToUint64(value time.Time) uint64 {
 	// we need to check against Unix seconds here, because the UnixNano result is undefined if the Unix time
 	// in nanoseconds cannot be represented by an int64 (a date before the year 1678 or after 2262)
 	switch {
-	case unixSeconds > MaxNanoTimestampInt64Seconds:
+	case unixSeconds > MaxNanoTimestampInt64Seconds,
+		// the last representable second only fits partially into a nanosecond-precision int64 timestamp
+		unixSeconds == MaxNanoTimestampInt64Seconds && int64(value.Nanosecond()) > math.MaxInt64%1_000_000_000:
 		unixNano = math.MaxInt64
 	case unixSeconds < 0 || unixNano < 0:
 		unixNano = 0
@@ -1042,9 +1044,9 @@ func (d *Deserializer) ReadTime(dest *time.Time, errProducer ErrProducer) *Deser
 
 	nanoseconds := binary.LittleEndian.Uint64(d.src[d.offset : d.offset+UInt64ByteSize])
 
-	// If the number of seconds in the nanosecond timestamp exceeds the max number of
-	// seconds that can be represented in a nanosecond int64 timestamp truncate to max.
-	if nanoseconds/1_000_000_000 > MaxNanoTimestampInt64Seconds {
+	// If the nanosecond timestamp exceeds what can be represented
+	// in a nanosecond int64 timestamp truncate to max.
+	if nanoseconds > math.MaxInt64 {
 		nanoseconds = math.MaxInt64
 	}
 
